@@ -9,6 +9,7 @@ CONSTANTS
   WM = 8
   ConstructSlots <- Slots2
   Unbounded = FALSE
+  ViewIds <- NoViews
   Ops <- AllOps
   EmitAll = TRUE
 VIEW View
